@@ -1847,13 +1847,29 @@ class AstEval:
             await self.get_names(
                 ast.Assign(targets=[gen.target], value=ast.Constant(value=None)), local_names=lvars
             )
-        return lvars, {var: self.sym_table[var] for var in lvars if var in self.sym_table}
+        save_vars = {}
+        for var in lvars:
+            if var in self.sym_table:
+                val = self.sym_table[var]
+                if isinstance(val, EvalLocalVar):
+                    # the loop assigns through the closure cell: remember what the cell held
+                    val = (val, val.is_defined(), val.value if val.is_defined() else None)
+                save_vars[var] = val
+        return lvars, save_vars
 
     async def loopvar_scope_restore(self, var_names, save_vars):
         """Restore current scope variables that match looping target vars."""
         for var_name in var_names:
             if var_name in save_vars:
-                self.sym_table[var_name] = save_vars[var_name]
+                val = save_vars[var_name]
+                if isinstance(val, tuple) and len(val) == 3 and isinstance(val[0], EvalLocalVar):
+                    cell, defined, value = val
+                    if defined:
+                        cell.set(value)
+                    else:
+                        cell.set_undefined()
+                    val = cell
+                self.sym_table[var_name] = val
             else:
                 try:
                     del self.sym_table[var_name]
